@@ -161,7 +161,8 @@ fn who() -> impl Strategy<Value = Who> {
 }
 
 fn pair() -> impl Strategy<Value = Pair> {
-    prop_oneof![3 => any::<u16>().prop_map(Pair::Granted), 1 => (actor(), actor()).prop_map(|(o, s)| Pair::Explicit(o, s))]
+    // (owner index N_ACTORS: the token contract's own account, which holds tokens whenever somebody sent it some)
+    prop_oneof![9 => any::<u16>().prop_map(Pair::Granted), 3 => (actor(), actor()).prop_map(|(o, s)| Pair::Explicit(o, s)), 1 => actor().prop_map(|s| Pair::Explicit(N_ACTORS, s))]
 }
 
 fn payload() -> impl Strategy<Value = Vec<u8>> {
@@ -242,7 +243,7 @@ fn init_strategy(prop: &str) -> BoxedStrategy<Init> {
         1 => edge_u128().prop_map(|k| Some(Cap::Abs(k))),
     ];
     let p_mint = if prop == "C13" { 0.92 } else { 0.7 };
-    let crowd = if prop == "C01" { prop_oneof![9 => Just(0u8), 1 => 31u8..48].boxed() } else { Just(0u8).boxed() };
+    let crowd = if prop == "C01" || prop == "C13" { prop_oneof![9 => Just(0u8), 1 => 31u8..48].boxed() } else { Just(0u8).boxed() };
     (accounts, proptest::option::weighted(p_mint, (rcpt(), cap)), proptest::option::weighted(0.6, actor()), crowd)
         .prop_map(|(accounts, mint, marketing, crowd)| Init { accounts, mint, marketing, crowd })
         .boxed()
@@ -479,7 +480,7 @@ fn resolve(a: &Amt, o: &Obs, inst_cap: Option<u128>, debited: Option<usize>, pai
 fn resolve_pair(p: &Pair, o: &Obs) -> (usize, usize) {
     let n = N_ACTORS as usize;
     match p {
-        Pair::Explicit(a, b) => (*a as usize % n, *b as usize % n),
+        Pair::Explicit(a, b) => (*a as usize % N_HOLDERS as usize, *b as usize % n),
         Pair::Granted(k) => {
             let mut live = vec![];
             for ow in 0..n {
@@ -572,6 +573,7 @@ pub fn run_case(prop: &str, case: &Case, ctx: &mut CaseCtx) -> Result<(), Violat
         let mut total = 0u128;
         let mut seen = BTreeSet::new();
         let (start_h, start_ns) = (w.d.height, w.d.now_ns());
+        let crowd_addrs: Vec<Addr> = (0..case.init.crowd).map(|k| w.d.api.addr_make(&format!("crowd{k}"))).collect();
         let store = &mut w.d.store;
         for (i, a) in &case.init.accounts {
             let i = *i as usize % N_ACTORS as usize;
@@ -581,6 +583,11 @@ pub fn run_case(prop: &str, case: &Case, ctx: &mut CaseCtx) -> Result<(), Violat
             let Some(t) = total.checked_add(*a) else { continue };
             total = t;
             L_BALANCES.save(store, &w.actors[i], &Uint128::new(*a)).unwrap();
+        }
+        for k in 0..case.init.crowd {
+            let Some(t) = total.checked_add(1 + k as u128) else { continue };
+            total = t;
+            L_BALANCES.save(store, &crowd_addrs[k as usize], &Uint128::new(1 + k as u128)).unwrap();
         }
         let mint = match (&minter_str, case.init.mint.as_ref()) {
             (Some(m), Some((mi, _))) if (*mi as usize) < N_ACTORS as usize => Some(LegacyMinterData {
@@ -1388,7 +1395,7 @@ fn d_pair(u: &mut arbitrary::Unstructured) -> Pair {
     if arb_bool(u, 3, 4) {
         Pair::Granted(u.arbitrary().unwrap_or(0))
     } else {
-        Pair::Explicit(d_actor(u), d_actor(u))
+        Pair::Explicit(if arb_bool(u, 1, 8) { N_ACTORS } else { d_actor(u) }, d_actor(u))
     }
 }
 fn d_who(u: &mut arbitrary::Unstructured) -> Who {
@@ -1462,6 +1469,6 @@ pub fn decode_case(prop: &str, u: &mut arbitrary::Unstructured) -> Case {
     }
     let marketing = if arb_bool(u, 3, 5) { Some(d_actor(u)) } else { None };
     let legacy_bulk = if prop == "C19" && arb_bool(u, 1, 5) { 16 + arb_below(u, 8) as u8 } else { 0 };
-    let crowd = if prop == "C01" && arb_bool(u, 1, 10) { 31 + arb_below(u, 17) as u8 } else { 0 };
+    let crowd = if (prop == "C01" || prop == "C13") && arb_bool(u, 1, 10) { 31 + arb_below(u, 17) as u8 } else { 0 };
     Case { init: Init { accounts, mint, marketing, crowd }, legacy, legacy_version, legacy_bulk, ops }
 }
